@@ -141,6 +141,12 @@ def oracle_mgr(case, impl, want="all"):
             elif acts:
                 return "an action ran outside a Do start"
         if want in ("all", "c09"):
+            if ran_election:
+                _exp, _out = expected_election(provs, health)
+                if _out[0] == "ok" and _out[2] and act is not None and act["iv"] != 10:
+                    return ("recovery: every probe of the election failed and the manager fell back on %s, but its retry interval is %d s "
+                            "instead of the short one: with the error count already past the threshold nothing starts another election "
+                            "for that long, so later queries keep failing on it after an alternative has recovered" % (act["ep"], act["iv"]))
             if kind == "S" and "r0" not in evs and act is not None:
                 before = objs.get(act["id"])
                 if before is not None:
